@@ -130,7 +130,7 @@ func (vc *VC) run() {
 	env := vc.entryEnv()
 	if vc.con != nil {
 		for _, l := range vc.con.Lets {
-			v := vc.eval(l.E, env)
+			v := vc.nameQuantLet(l.Name, vc.eval(l.E, env))
 			vc.lets[l.Name] = v
 			env.vars[l.Name] = v
 		}
